@@ -171,7 +171,7 @@ pub fn main(args: &[String]) -> i32 {
                         let _ = w.child.kill();
                         let _ = w.child.wait();
                         w = spawn();
-                        if res["class"] == "hang" {
+                        if res["class"] == "hang" && crate::util::machine_loaded() {
                             // silence can also be a loaded machine: a hang counts only if it
                             // reproduces in a fresh child with eight times the deadline
                             let sent = writeln!(w.stdin, "{}", req).and_then(|_| w.stdin.flush());
